@@ -7,9 +7,31 @@ package main
 // answering: both only show at the session level.
 
 import (
+	"encoding/base64"
 	"encoding/json"
+	"fmt"
 	"math/rand"
+
+	"gosrc.io/xmpp/stanza"
 )
+
+// local parts (what stanza.NewJid accepts is decided by the library: rejected ones are skipped) and secrets for the
+// session-level cases: the payload of the <auth/> the scripted server receives must be NUL + local part + NUL + secret
+// with the local part exactly as configured (no case folding, trimming or re-encoding on the way through
+// NewClient / parsedJid.Node / authSASL)
+var c14LocalPool = []string{"user", "Alice", "UPPER.lower", "ünï-cödé", "漢字", "a+b=c", "x%41", "tab\tno", "dot.", "1", "İstanbul", "ǅ", "a_b~c!$*()", "ﬀ"}
+var c14SecretPool = []string{"secret", "s3cr&t<>\"'", "pass word ", "\x00nul\x00", "пароль", "=+/", "a", "ÿ\u00ff"}
+
+func c14SessCreds(r *rand.Rand, in *sessIn) {
+	for tries := 0; tries < 8; tries++ {
+		u := c14LocalPool[r.Intn(len(c14LocalPool))]
+		if j, err := stanza.NewJid(u + "@" + srvDomain); err == nil && j != nil {
+			in.User = u
+			break
+		}
+	}
+	in.Secret = c14SecretPool[r.Intn(len(c14SecretPool))]
+}
 
 type c14Case struct {
 	Auth *c14In  `json:"auth,omitempty"`
@@ -32,7 +54,8 @@ func (c14Prop) Gen(r *rand.Rand, tier string) []interface{} {
 	}
 	for _, x := range genC03(r, tier) {
 		v := x.(sessIn)
-		if v.Tag == "mechs-change" || v.Tag == "keep:auth" || v.Tag == "after-failure:auth" || v.Tag == "step:auth" {
+		if v.Tag == "mechs-change" || v.Tag == "keep:auth" || v.Tag == "after-failure:auth" || v.Tag == "step:auth" || v.Tag == "good" {
+			c14SessCreds(r, &v)
 			out = append(out, c14Case{Sess: &v})
 		}
 	}
@@ -50,14 +73,32 @@ func (c14Prop) Run(in interface{}) Sx {
 	if c.Auth != nil {
 		return c14{}.Run(*c.Auth)
 	}
-	return sessProp{id: "C14"}.Run(*c.Sess)
+	// the session observation, plus per connection the character data of every <auth/> the server received
+	ob, sx := runSessionRaw(*c.Sess)
+	var pls []Sx
+	if ob != nil {
+		for _, elems := range ob.elems {
+			var l []Sx
+			for _, e := range elems {
+				if e.Kind == "auth" {
+					l = append(l, SBytes(e.B))
+				}
+			}
+			pls = append(pls, LS(l))
+		}
+	}
+	return L(sx, LS(pls))
 }
 func (c14Prop) InputObs(in interface{}, obs Sx) Sx {
 	c := in.(c14Case)
 	if c.Auth != nil {
 		return L(Z(0), c14{}.Input(*c.Auth))
 	}
-	return L(Z(1), sessProp{id: "C14"}.InputObs(*c.Sess, obs))
+	inner := L()
+	if len(obs.L) == 2 {
+		inner = obs.L[0]
+	}
+	return L(Z(2), sessProp{id: "C14"}.InputObs(*c.Sess, inner), SBytes(c.Sess.user()), SBytes(c.Sess.secret()))
 }
 func (p c14Prop) Input(in interface{}) Sx { return p.InputObs(in, L()) }
 func (c14Prop) Oracle(in interface{}, obs Sx) (string, string) {
@@ -65,9 +106,24 @@ func (c14Prop) Oracle(in interface{}, obs Sx) (string, string) {
 	if c.Auth != nil {
 		return c14{}.Oracle(*c.Auth, obs)
 	}
-	// the session oracle (success iff the script completes, request order, ...) plus C14's own clause
+	// the session oracle (success iff the script completes, request order, ...) plus C14's own clauses
+	if len(obs.L) != 2 {
+		return "scenario did not finish: " + obs.String(), "hang"
+	}
+	payloads := obs.L[1].L
+	obs = obs.L[0]
 	if msg, sig := (sessProp{id: "C14"}).Oracle(*c.Sess, obs); msg != "" {
 		return msg, sig
+	}
+	// the payload of every <auth/>: NUL + the local part of the configured JID + NUL + the secret, byte for byte
+	want := "\x00" + c.Sess.user() + "\x00" + c.Sess.secret()
+	for ci, pc := range payloads {
+		for _, pl := range pc.L {
+			dec, err := base64.StdEncoding.DecodeString(string(bytesOf(pl)))
+			if err != nil || string(dec) != want {
+				return fmt.Sprintf("conn %d: the <auth/> payload %q decodes to %q (err %v); configured JID local part %q and secret %q want %q", ci, bytesOf(pl), dec, err, c.Sess.user(), c.Sess.secret(), want), "session-payload"
+			}
+		}
 	}
 	for ci, co := range obs.L {
 		if ci >= len(c.Sess.Conns) {
